@@ -4,6 +4,7 @@ import (
 	"bytes"
 	"encoding/binary"
 	"fmt"
+	"runtime"
 	"sync"
 	"sync/atomic"
 	"testing"
@@ -37,7 +38,7 @@ func TestVerifC15(t *testing.T) {
 // c15Conc calls emit from g goroutines released from a spin barrier, each on its own destinations, and compares every
 // result (after all goroutines are done, so a shared buffer shows) with the encoding written out by hand.
 func c15Conc(base uint64, g int, emit func(uint64) []byte, want func(uint64) []byte) string {
-	const k = 400
+	const k = 3000
 	res := make([][][]byte, g)
 	var ready int32
 	var wg sync.WaitGroup
@@ -47,7 +48,10 @@ func c15Conc(base uint64, g int, emit func(uint64) []byte, want func(uint64) []b
 			defer wg.Done()
 			res[i] = make([][]byte, k)
 			atomic.AddInt32(&ready, 1)
-			for atomic.LoadInt32(&ready) < int32(g) {
+			for n := 0; atomic.LoadInt32(&ready) < int32(g); n++ {
+				if n > 1<<20 {
+					runtime.Gosched() // the barrier must not depend on asynchronous preemption (GOMAXPROCS=1, asyncpreemptoff)
+				}
 			}
 			for j := 0; j < k; j++ {
 				res[i][j] = emit(base + uint64(i)<<32 + uint64(j)*0x10001)
